@@ -16,7 +16,7 @@ Model comparison (driver drv_c15, Model/PacketParse.lean): whole outcome for the
 un-modelled parser (ipv6, icmpv6, dhcp, dns, rip, vxlan, igmp, gre, mpls, eapol/eap, MPTCP option): there the model answers
 `foreign <class> <bytes handed over>` and only the oracle applies to the rest.
 """
-import os, sys, json, re, struct, importlib, collections
+import os, sys, json, re, struct, importlib, collections, itertools
 import common, poxenv
 from common import Check
 import c15_frames as FR
@@ -83,19 +83,19 @@ class C15(Check):
                              "end_tlv._parse_data", "management_address._parse_data", "organizationally_specific._parse_data",
                              "system_capabilities._parse_data", "chassis_id.__str__", "port_id.__str__"]}
     anchors = []
-    coverage_cases = 3000
+    coverage_cases = 2000
     search_budget = {"quick": 20000, "thorough": 200000}
     design_ref = "DESIGN.md §5 C15, §3 Model/Packet, §6 D14, Appendix A.3"
     technique = ("Lean 4 proof about a hand-written executable model (Except-valued: every struct.unpack of a wrong-size slice, index, "
                  "deliberate raise and %-format of None is an error) of the Ethernet/VLAN/LLC-SNAP/ARP/IPv4/ICMP/TCP(+options)/UDP/LLDP parse, pack "
                  "and print paths and the MPLS/EAPOL/EAP/IPv6(+extension headers)/ICMPv6(+NDP)/IGMP/GRE/VXLAN/RIP/DNS/DHCP parse paths + differential correspondence of the compiled model against the real classes on exhaustive truncation / "
                  "single-byte corruption / structure-aware / random frames + independent 'nothing raises, progress recorded' oracle on all 21 parsers")
-    rule = ("case = one byte string offered to ethernet(raw=...): a valid frame of the 153-frame corpus (all 21 modules; incl. realistic TCP SYN / SYN-ACK "
-            "option layouts and IGMP v1/v2/v3 queries and reports), every truncation of it (ICMPv6 / IGMP: also with the checksum recomputed), the payload-less "
+    rule = ("case = one byte string offered to ethernet(raw=...): a valid frame of the 160-frame corpus (all 21 modules; incl. realistic TCP SYN / SYN-ACK "
+            "option layouts and IGMP v1/v2/v3 queries and reports), every truncation of it (ICMPv6 / IGMP: also with the checksum recomputed), every option-code octet of every DHCP frame set to every other code present in it (RFC 3396 concatenation: legally split long options of 256..600 octets, two long options made one), the payload-less "
             "TCP segments whose last option (every kind incl. MPTCP with every subtype, every length) starts in the last 1..4 header bytes, ALL 256 values at "
             "every protocol-selector / type / code / length / option-kind / option-length byte of every corpus frame and at every header byte of the "
             "checksum-verified IGMP / ICMPv6 messages with the IPv4-header / IGMP / ICMPv6 checksum recomputed (both tiers, not sliced), all 256 values at "
-            "the other header-boundary offsets and the 8 single-bit flips elsewhere (every 32nd in the quick tier, all in the thorough tier; mutants behind a "
+            "the other header-boundary offsets and the 8 single-bit flips elsewhere (every 64th in the quick tier, all in the thorough tier; mutants behind a "
             "verified checksum also with the checksum recomputed), structure-aware mutants (length fields, option/TLV lengths, header-length nibbles, DNS "
             "pointers, nesting) or random bytes; distinct = sha1 of the frame; non-trivial = ethernet header parsed and at least one further parser entered")
 
@@ -487,8 +487,11 @@ class C15(Check):
             obs["slices"] = self._slices_ok(p, b)
             # the same parse result used again and again (HARDENING 1-2): str(), pack(), str() once more, dump(), pack() once more.
             # Every one must return, and re-serialising must give the same bytes (hdr() may fill in lengths / checksums, but only once).
+            again = self._second_look(case)
             for stage, key, f in (("str", "str0", lambda: (str(p), "ok")[1]), ("pack", "pack", lambda: p.pack().hex()), ("str", "str", lambda: (str(p), "ok")[1]),
                                   ("dump", "dump", lambda: (p.dump(), "ok")[1]), ("pack", "pack2", lambda: p.pack().hex())):
+                if not again and key in ("str0", "pack2"):
+                    obs[key] = "ok" if key == "str0" else obs["pack"]; continue
                 try:
                     obs[key] = f()
                 except BaseException as e:
@@ -498,10 +501,8 @@ class C15(Check):
             if obs["pack2"] == obs["pack"] or isinstance(obs["pack"], dict): del obs["pack2"]                    # kept only when it differs
             del obs["str0"]
         # the path every handler takes: PacketIn.parsed on an ofp_packet_in carrying the frame (the same constructor call once more:
-        # done for the fixed corpus and one generated case in four)
-        how = case.get("how", "")
-        if how.startswith(("key", "set", "marks", "splice", "indel", "random", "nest")) and int(case["hex"][-2:] or "0", 16) % 4 != 3:
-            return obs
+        # done for the fixed corpus and one generated case in eight)
+        if not self._second_look(case): return obs
         try:
             # another frame goes through the same process in between (HARDENING 1): nothing of it may show up in this frame's second parse
             self._disturb(b)
@@ -516,6 +517,13 @@ class C15(Check):
         if self._with_handlers(case) and not isinstance(obs["pktin"], dict):
             obs["handlers"] = self.handlers(b)
         return obs
+
+    @staticmethod
+    def _second_look(case):
+        """the repeated str()/pack() and the second parse (PacketIn.parsed, after another frame) are done for the fixed corpus and one generated
+        case in eight"""
+        how = case.get("how", "")
+        return not how.startswith(("key", "set", "marks", "splice", "indel", "random", "nest")) or int(case["hex"][-2:] or "0", 16) % 8 == 3
 
     def _disturb(self, b):
         """parse a different frame — one rich in lists / options / records of the kind a shared default or a class-level cache would leak"""
@@ -652,7 +660,7 @@ class C15(Check):
     def model_request(self, case):
         # the phase-1 model (`Cfg.core`) is asked as well for the fixed corpus and one generated case in eight
         how = case.get("how", "")
-        core = not how.startswith(("key", "set", "marks", "splice", "indel", "random", "nest")) or int(case["hex"][-2:] or "0", 16) % 8 == 0
+        core = not how.startswith(("key", "set", "marks", "splice", "indel", "random", "nest")) or int(case["hex"][-2:] or "0", 16) % 16 == 0
         return {"op": "parse", "cfg": "repaired", "raw": case["hex"], "core": core, "fix": self.fixes, "var": self.vars}
 
     @staticmethod
@@ -734,7 +742,9 @@ class C15(Check):
     # sliced sweep): the other DNS headers (dns-query, dns-empty are swept), DHCP fixed parts (dhcp-discover, bootp), the long LLDPDU (lldp-discovery)
     # … and the rare-value / variant-probe frames, whose headers are those of other frames with particular field values
     SLICED_PREFIX = ("zero-", "eth-type-", "rip-metric-bounds", "igmp-high-addr", "lldp-full-pox", "lldp-discovery-pox", "dhcp-text-nonascii", "ip6-plen-over-",
-                     "ip6-hbh-frag-frag", "ip6-hbh-frag-end")
+                     "ip6-hbh-frag-frag", "ip6-hbh-frag-end", "dhcp-long-256", "dhcp-long-510", "dhcp-long-511", "dhcp-long-600",
+                     "dns-ptr-mid", "dns-ptr-fwd", "dns-label-bits", "dns-name-past-end", "dns-rr-rdata-ptr-loop", "dns-empty", "dhcp-long-300",
+                     "ip6-ra-m", "ip6-ra-o", "ip6-na-r", "ip6-na-s", "ip6-na-o")          # one-flag variants of ip6-ra / ip6-na
     SLICED_INNER = ("dns-resp", "mdns", "dhcp-offer", "dhcp-overload", "dhcp-hlen16", "lldp-full", "rarp-pad", "snap-arp", "snap2-ab-arp", "qinq-arp")
 
     def tcp_tail_cases(self):
@@ -769,19 +779,40 @@ class C15(Check):
         for name, f in self._frames:
             cases.append(frame_case(f, "valid " + name))
         for name, f in self._frames:
+            long_opts = name.startswith(("dhcp-long-", "dhcp-two-long", "dhcp-opt-lens"))     # hundreds of option-value octets: every 13th cut inside them
             for n in range(len(f)):
+                if long_opts and n > 300 and n % 13 and n < len(f) - 4: continue
                 cases.append(frame_case(f[:n], "trunc %s %d" % (name, n)))
                 h = FR.fix_checksums(f[:n])
                 if h != f[:n] and (name.startswith("ip6-") and n > 58 or name.startswith("igmp")):
                     cases.append(frame_case(h, "trunc+csum %s %d" % (name, n)))
         seen = set(c["hex"] for c in cases)
-        for c in self.tcp_tail_cases():
+        for c in itertools.chain(self.tcp_tail_cases(), self.dhcp_code_cases()):
             if c["hex"] not in seen:
                 seen.add(c["hex"]); cases.append(c)
         return cases
 
     def _csum_family(self, name):
         return name.startswith("igmp") or name.startswith("icmp-") or (name.startswith("ip6-") and self._l4off.get(name) is not None)
+
+    def dhcp_code_cases(self):
+        """every option-code octet of every DHCP corpus frame set to every OTHER code that occurs in the frame (and to PAD / END): two
+        options become one — the parser concatenates them (RFC 3396), the value can then exceed 255 octets — or the option list is
+        re-aligned / cut.  The options are located with the harness's own knowledge of the layout (BOOTP fixed part 236 + cookie 4)."""
+        for name, f in self._frames:
+            if not name.startswith(("dhcp", "bootp")) or len(f) < 14 + 20 + 8 + 240: continue
+            o = 14 + (f[14] & 15) * 4 + 8 + 240
+            offs = []
+            while o < len(f):
+                offs.append(o)
+                if f[o] in (0, 255): o += 1
+                elif o + 1 < len(f): o += 2 + f[o + 1]
+                else: break
+            codes = sorted(set(f[i] for i in offs) | {0, 255})
+            for i in offs:
+                for c in codes:
+                    if c != f[i]:
+                        yield frame_case(FR.fix_checksums(f[:i] + bytes([c]) + f[i + 1:]), "dhcpcode %s %d %02x" % (name, i, c))
 
     def key_sweeps(self):
         """FULL sweeps, both tiers: all 256 values at
@@ -795,7 +826,7 @@ class C15(Check):
             offs = [] if name in self.SLICED_INNER or name.startswith(self.SLICED_PREFIX) else list(f.inner_keys)
             l4 = self._l4off.get(name)
             nh = max([n for p, n in self.CSUM_HDR.items() if name.startswith(p)] + [0])
-            if l4 is not None and nh:
+            if l4 is not None and nh and name not in ("ip6-ra-m", "ip6-ra-o", "ip6-na-r", "ip6-na-s", "ip6-na-o"):     # same type and size class as ip6-ra / ip6-na
                 offs = sorted(set(offs) | set(i for i in range(l4, min(l4 + nh, len(f))) if i not in (l4 + 2, l4 + 3)))
             for i in offs:
                 sig = (bytes(f[i:]), i - (min(f.inner_keys) if f.inner_keys else i))
@@ -828,7 +859,7 @@ class C15(Check):
         for c, where in self.key_sweeps():
             skip.add(where); yield c
         # 2. the remaining single-byte corruption: exhaustive (thorough) / a deterministic slice of it (quick; the slice moves with the seed)
-        stride = 1 if tier == "thorough" else 32
+        stride = 1 if tier == "thorough" else 64
         phase = rng.randrange(stride)
         for j, (name, i, v) in enumerate(self.corruptions(skip)):
             if j % stride != phase: continue
@@ -840,7 +871,7 @@ class C15(Check):
             if h != g and self._l4off.get(name) is not None and i >= self._l4off[name]:
                 yield frame_case(h, "set+csum %s %d %02x" % (name, i, v))
         # 3. structure-aware and random
-        n = 4000 if tier == "quick" else 120000
+        n = 2500 if tier == "quick" else 90000
         for _ in range(n):
             yield self.g_structured(rng)
 
@@ -946,7 +977,7 @@ C15.level_text = (
     "runs out of model fuel: tcp_options_fuel) / UDP, LLDP with all TLV classes, MPLS, EAPOL/EAP, IPv6 + extension-header chain, ICMPv6 + NDP RS/RA/NS/NA with "
     "the option walker, IGMP v1-v3, GRE (+source routing), VXLAN, RIP, DHCP (fixed part + option walker), DNS (questions, records, name decompression). The "
     "phase-1 model returns what the total C14 parser returns (refines_c14). Every run re-checks BOTH models (phase-2 parsers modelled / left foreign) against the "
-    "real classes on every truncation and single-byte corruption of 153 valid frames covering all 21 modules, and evaluates the oracle: nothing raises in "
+    "real classes on every truncation and single-byte corruption of 160 valid frames covering all 21 modules, and evaluates the oracle: nothing raises in "
     "parse, PacketIn.parsed, str(), pack(), str() again, dump(), pack() again (same bytes); the same bytes parsed again after a different frame went through the "
     "process give the same result; real PacketIn events for the corpus and one generated frame in sixteen into the l2_learning (plain and transparent; flood, "
     "drop and flow-install paths with ofp_match.from_packet) and discovery handlers return.")
